@@ -43,7 +43,7 @@ def child_main(spec_path):
 def run(package_dir, master_seed, count=64, events=600, children=8):
     _PKG["dir"] = package_dir
     scratch_root = os.path.dirname(package_dir)
-    families = list(gen.FAMILIES)
+    families = [name for name, spec in gen.FAMILIES.items() if not spec.get('special')]
     tasks = [{"family": families[i % len(families)], "rng_seed": derive_seed(master_seed, "selftest", i),
               "events": events} for i in range(count)]
     ctx = multiprocessing.get_context("fork")
